@@ -386,6 +386,7 @@ func (g *genState) streamCase(e *entry, b []byte, mut string) {
 		return
 	}
 	c.Acc, c.Re = true, hex.EncodeToString(re)
+	g.hashOracle(e, o.obj, b[:len(b)-unread], re, "")
 	read := b[:len(b)-unread]
 	if bytes.Equal(re, read) {
 		g.res.Count("stream_accept_canonical")
@@ -562,6 +563,7 @@ type genState struct {
 	valid    map[string][][]byte // valid encodings per type, seeds for mutation
 	others   []interface{}       // objects generated earlier, encoded between the reads of the reader path
 	nvalue   int
+	nhash    int
 	maxRatio float64
 }
 
@@ -725,6 +727,15 @@ func (g *genState) bytesCaseVia(e *entry, v *viaFn, b []byte, mut string) {
 		return
 	}
 	c.Acc, c.Re, c.Value = true, hex.EncodeToString(re), &mv
+	// one hash per value: also for the accepted-but-not-canonical inputs
+	if pre, digest := g.hashOracle(e, o.obj, b, re, c.Via); digest && v == nil {
+		g.nhash++
+		if !bytes.Equal(re, b) || !bytes.Equal(pre, re) || g.nhash%8 == 0 {
+			hc := Case{Kind: "hash", Type: e.name, ty: e.id, Bytes: hex.EncodeToString(b), Re: hex.EncodeToString(pre), Mut: mut}
+			hc.coq = fmt.Sprintf("PHash %d %s %s", e.id, byteList(b), byteList(pre))
+			g.add(hc)
+		}
+	}
 	if bytes.Equal(re, b) {
 		g.res.Count("accept_canonical")
 		if mut != "none" && mut != "valid" {
@@ -933,6 +944,34 @@ func gen(seed uint64, n int, outDir, corpusDir string) {
 					mutateTree(r, it)
 				}
 				g.itemCase(enc(it))
+			}
+		}
+	}
+	// the other empty kind at every empty place of transaction-bearing values: the accepted
+	// second spelling of a nil recipient must be reached (alone and inside containers) on every
+	// run, it is what the one-hash clause is about
+	for _, tn := range []string{"Transaction", "Transactions", "Block", "Body", "BlocksData", "MarkedBlockInfo"} {
+		e := entryByName(tn)
+		for k := 0; k < 4 && len(g.valid[tn]) < 3; k++ {
+			g.valueCase(e)
+		}
+		done := 0
+		for _, sb := range g.valid[tn] {
+			it, err := parseAll(sb)
+			if err != nil || len(sb) > 3000 {
+				continue
+			}
+			var ns []*Item
+			nodes(it, &ns)
+			for i := 1; i < len(ns) && done < 10; i++ {
+				x := ns[i]
+				if (x.IsList && len(x.L) == 0) || (!x.IsList && len(x.B) == 0) {
+					saved := *x
+					*x = Item{IsList: !saved.IsList, B: []byte{}}
+					g.bytesCaseVia(e, nil, enc(it), "flip-empty-kind@"+fmt.Sprint(i))
+					*x = saved
+					done++
+				}
 			}
 		}
 	}
